@@ -161,6 +161,8 @@ func runC04(c *Ctx) {
 
 	// ---- R04.12: dictionary look-ups of the tokenizer ---------------------------------
 	checkDictLookupsOnCleanWord(c, p)
+	// shared with C01: every proposed range is scored (R01.11)
+	checkEveryRangeScored(c, p)
 
 	// ---- R04.4: map-order determinism ----------------------------------------------
 	checkMapOrder(c, p, matchFn, explored)
